@@ -111,6 +111,20 @@ def execute(case):
             ev.append(dict(base, op="light_state", t=t, res=_q(light_off, t), sig="light/constructed-inactive"))
             ev.append(dict(base, op="light_state", t=t, res=_q(light_late, t), sig="light/cycle-set-later"))
             ev.append(dict(base, op="light_state", t=t, res=_q(light_switched, t), sig="light/switched-off"))
+    # two cycles constructed WITHOUT an element list and filled in place afterwards: each follows its own definition
+    from commonroad.scenario.traffic_light import TrafficLightCycle as _TLC, TrafficLightCycleElement as _TLE, \
+        TrafficLightState as _TLS
+    if not case.get("dt"):
+        first, second = _TLC(time_offset=case["off"]), _TLC(time_offset=case["off"])
+        cyc2 = [dict(e) for e in reversed(case["cyc"])] + [{"d": 1, "c": "green"}]
+        for e in case["cyc"]:
+            first.cycle_elements.append(_TLE(_TLS[_COL[e["c"]]], e["d"]))
+        for e in cyc2:
+            second.cycle_elements.append(_TLE(_TLS[_COL[e["c"]]], e["d"]))
+        b2 = {"cyc": cyc2, "off": case["off"]}
+        for t in ts[:: max(1, len(ts) // 12)]:
+            ev.append(dict(base, op="cycle_state", t=t, res=_q(first, t), sig="late-filled/first"))
+            ev.append(dict(b2, op="cycle_state", t=t, res=_q(second, t), sig="late-filled/second"))
     # periodicity far away from the origin (many periods later), decided on the code's own answers
     for t in (ts[0], ts[len(ts) // 2]):
         k = 1000
